@@ -58,7 +58,7 @@ End Sim.
 
 (* symbolic execution: unfold everything except real arithmetic and the vector primitives *)
 Ltac symexec :=
-  cbv -[Rplus Rminus Rmult Rdiv Ropp Rinv IZR Rle_dec vadd vsub vlin vscal vmul vdiv vzero vmaxc app];
+  cbv -[Rplus Rminus Rmult Rdiv Ropp Rinv IZR Rle_dec vadd vsub vlin vscal vmul vdiv vzero vmaxc normsq_lt app];
   try reflexivity.
 
 Local Open Scope R_scope.
@@ -584,3 +584,72 @@ Lemma gen_adup_cbinner_step (stepsize : R) (o : @adop R) (junk : string -> Rvec)
     (mk_hst [("x", 0%nat); ("duals[j]", 1%nat); ("tmp_rans[L[j].range]", 2%nat)] [x; d; t] log))
   = Some (log ++ [adup_x1 stepsize o x d])%list.
 Proof. intros Hs. unfold adup_x1, ad_arg. rewrite Hs. symexec. Qed.
+
+(* ======================================= steepest descent, constant step size *)
+Section GenSD.
+Variables (grad proj : Rvec -> Rvec) (step tol : R) (junk : string -> Rvec).
+Definition sd_I : interp := mk_I [("step", step); ("tol", tol)] [("f.gradient", grad); ("projection", proj)] [] [] junk.
+Definition env_sd : list (string * nat) := [("x", 0%nat); ("caller.x", 0%nat); ("grad_x", 1%nat)].
+Definition env_sd_ret : list (string * nat) := (env_sd ++ [("#returned", 0%nat)])%list.
+(* model state (x, returned) and the content of grad_x *)
+Definition sd_enc (s : Rvec * bool) (g : Rvec) (log : list Rvec) : hst :=
+  mk_hst (if snd s then env_sd_ret else env_sd) [fst s; g] log.
+Let st := sd_step grad proj step tol.
+
+Lemma gen_sd_pre x log :
+  option_map canon (exec sd_I steepest_descent_pre (mk_hst [("x", 0%nat); ("caller.x", 0%nat)] [x] log))
+  = Some (sd_enc (x, false) (junk "grad_x") log).
+Proof. symexec. Qed.
+Lemma gen_sd_body_returned x g log :
+  body_step sd_I steepest_descent_body (sd_enc (x, true) g log) = Some (sd_enc (x, true) g log).
+Proof. symexec. Qed.
+Lemma gen_sd_body_live x g log :
+  body_step sd_I steepest_descent_body (sd_enc (x, false) g log)
+  = Some (if sd_stops grad tol x then sd_enc (x, true) (grad x) log
+          else sd_enc (st (x, false)) (grad x) (log ++ [fst (st (x, false))])).
+Proof.
+  unfold st, sd_step, sd_stops. destruct (normsq_lt (grad x) tol) eqn:E.
+  - cbv -[Rplus Rminus Rmult Rdiv Ropp Rinv IZR Rle_dec vadd vsub vlin vscal vmul vdiv vzero vmaxc normsq_lt Num_R app].
+    rewrite E. reflexivity.
+  - cbv -[Rplus Rminus Rmult Rdiv Ropp Rinv IZR Rle_dec vadd vsub vlin vscal vmul vdiv vzero vmaxc normsq_lt Num_R app].
+    rewrite E. reflexivity.
+Qed.
+Lemma sd_trace_stopped n x : sd_trace grad proj step tol n (x, true) = [].
+Proof. destruct n; reflexivity. Qed.
+Lemma sd_step_stop x : sd_stops grad tol x = true ->
+  st (x, false) = (x, true) /\ forall n, sd_trace grad proj step tol (S n) (x, false) = [].
+Proof. intros E. unfold st. cbn [sd_trace]. unfold sd_step. rewrite E. split; reflexivity. Qed.
+Lemma sd_step_go x : sd_stops grad tol x = false ->
+  snd (st (x, false)) = false
+  /\ forall n, sd_trace grad proj step tol (S n) (x, false)
+               = fst (st (x, false)) :: sd_trace grad proj step tol n (st (x, false)).
+Proof. intros E. unfold st. cbn [sd_trace]. unfold sd_step. rewrite E. split; reflexivity. Qed.
+Lemma gen_sd_iter n : forall s g log, exists g',
+  iter_opt n (body_step sd_I steepest_descent_body) (sd_enc s g log)
+  = Some (sd_enc (iter n st s) g' (log ++ sd_trace grad proj step tol n s)).
+Proof.
+  induction n as [|n IH]; intros [x b] g log.
+  - exists g. cbn [iter_opt iter sd_trace]. now rewrite app_nil_r.
+  - cbn [iter_opt iter]. destruct b.
+    + rewrite gen_sd_body_returned. cbn [obind]. destruct (IH (x, true) g log) as [g' Hg]. exists g'.
+      rewrite Hg. change (st (x, true)) with (x, true). rewrite !sd_trace_stopped. reflexivity.
+    + rewrite gen_sd_body_live. destruct (sd_stops grad tol x) eqn:E; cbn [obind].
+      * destruct (sd_step_stop x E) as [E1 E2]. rewrite E1, E2.
+        destruct (IH (x, true) (grad x) log) as [g' Hg]. exists g'. rewrite Hg, sd_trace_stopped. reflexivity.
+      * destruct (sd_step_go x E) as [E1 E2]. rewrite E2.
+        destruct (IH (st (x, false)) (grad x) (log ++ [fst (st (x, false))])%list) as [g' Hg]. exists g'.
+        rewrite Hg, <- app_assoc. reflexivity.
+Qed.
+(* the generated program: caller's x and callback log are those of the model *)
+Lemma gen_sd_run n x :
+  exists s, run_prog sd_I steepest_descent_pre steepest_descent_body n
+              (mk_hst [("x", 0%nat); ("caller.x", 0%nat)] [x] []) = Some s
+    /\ deref s "caller.x" = Some (fst (iter n st (x, false)))
+    /\ h_log s = sd_trace grad proj step tol n (x, false).
+Proof.
+  unfold run_prog. rewrite gen_sd_pre. cbn [obind].
+  destruct (gen_sd_iter n (x, false) (junk "grad_x") []) as [g' Hg]. rewrite Hg.
+  eexists. split; [reflexivity|]. split; [|reflexivity].
+  destruct (iter n st (x, false)) as [xf [|]]; reflexivity.
+Qed.
+End GenSD.
